@@ -1,6 +1,7 @@
 import OpusProofs.SoftClipFull
 import OpusProofs.SoftClipRound
-import OpusProofs.GainSkel
+import OpusProofs.GainIndep
+import OpusProofs.PcmSpec
 import Mathlib.Algebra.Order.Field.Rat
 /-
   Property C19 — "Soft clipping and decoder gain post-processing obey their contracts".
@@ -48,6 +49,12 @@ theorem passthrough_any_arith {α : Type} [ClipOps α] (x mem : Array α) (N C :
     (h : ∀ j, j < N * C → Pass (x.getD j ClipOps.zero)) :
     softClip false false x mem (N : Int) (C : Int) = .ok (x, mem) :=
   softClip_pass x mem N C hsz hm hmem h
+
+/-- `Pass` is satisfiable: over ℚ every sample with `|v| ≤ 1` passes (for the binary32 instantiation `Pass v` for
+    non-NaN `|v| ≤ 1` is IEEE-754 semantics of `<`, `*0` and `>= 0`; Lean cannot prove it about `Float32`, there the
+    pass-through clause rests on the bit-exact tie and on the strict S4 predicate) -/
+example : @Pass ℚ (fieldOps 0) (3 / 4) ∧ @Pass ℚ (fieldOps 0) (-1) :=
+  ⟨pass_of_abs_le_one 0 _ (by norm_num), pass_of_abs_le_one 0 _ (by norm_num)⟩
 
 /-- **passthrough** (ordered field).  All `|x[j]| ≤ 1` and cleared memory: output = input, memory stays 0. -/
 theorem passthrough {F : Type} [Field F] [LinearOrder F] [IsStrictOrderedRing F] (eps : F)
@@ -151,36 +158,50 @@ example : (0 : ℚ) < 1 / 2 ^ 24 ∧ (1 : ℚ) / 2 ^ 24 ≤ 1 / 16 ∧
     4 * ((1 : ℚ) / 2 ^ 24) ≤ (8444249 / 2 ^ 45) * (1 - 1 / 2 ^ 24) * (1 - 3 * (1 / 2 ^ 24)) ∧
     (0 : ℚ) ≤ 8444249 / 2 ^ 45 ∧ (8444249 : ℚ) / 2 ^ 45 ≤ 1 / 16 := by norm_num
 
-/-- **gain_frame_condition**.  The decoder gain touches nothing but the sample values: the return value
-    (sample count), `rangeFinal` and the number of samples are those of the gain-0 decode; gain 0 leaves
-    the samples alone; a non-zero gain multiplies each sample by the one factor `gainOf g`. -/
-theorem gain_frame_condition {α : Type} [ClipOps α] (gainOf : Int → α) (g : Int) (f : FrameOut α) :
-    (applyGain gainOf g f).ret = f.ret ∧ (applyGain gainOf g f).rangeFinal = f.rangeFinal ∧
-    (applyGain gainOf g f).pcm.size = f.pcm.size ∧
-    (g = 0 → applyGain gainOf g f = f) ∧
-    (g ≠ 0 → ∀ i, i < f.pcm.size → (applyGain gainOf g f).pcm[i]? = f.pcm[i]?.map (· * gainOf g)) := by
-  unfold applyGain
-  by_cases hg : g = 0
-  · simp [hg]
-  · simp [hg]
+/-- **gain_frame_condition** (decoder skeleton `OpusModel/DecSkel.lean`, C01 — tied to the code by C01's
+    correspondence suite, in which the gain pass is the event `G<n>@<ptr>` = `.acc 11`).  `gz r` is the run `r`
+    with `decode_gain` set to 0 and the gain-pass events erased from its event log.  For `opus_decode_native` —
+    every path: argument checks, concealment, FEC, all frames of a packet, mode transitions, soft clip — two runs
+    that differ only in `decode_gain` (and in gain-pass events already logged) give the same return value, the
+    same `*packet_offset`, the same final state except `decode_gain`, the same oracle-call counter (hence the
+    same list of SILK / CELT / range-decoder calls with the same arguments) and the same event log up to
+    gain-pass events: the gain touches nothing but the gain pass. -/
+theorem gain_frame_condition (o : DecSkel.Oracle) (data : Option Bytes) (len : Int) (pcm : DecSkel.Ptr)
+    (frame_size fec : Int) (sd sc : Bool) (r1 r2 : DecSkel.Run) (h : DecSkel.gz r1 = DecSkel.gz r2) :
+    (DecSkel.decodeNative o data len pcm frame_size fec sd sc r1).ret =
+      (DecSkel.decodeNative o data len pcm frame_size fec sd sc r2).ret ∧
+    (DecSkel.decodeNative o data len pcm frame_size fec sd sc r1).packetOffset =
+      (DecSkel.decodeNative o data len pcm frame_size fec sd sc r2).packetOffset ∧
+    DecSkel.gz (DecSkel.decodeNative o data len pcm frame_size fec sd sc r1).run =
+      DecSkel.gz (DecSkel.decodeNative o data len pcm frame_size fec sd sc r2).run := by
+  obtain ⟨a1, a2, a3⟩ := DecSkel.decodeNative_gz o data len pcm frame_size fec sd sc r1
+  obtain ⟨b1, b2, b3⟩ := DecSkel.decodeNative_gz o data len pcm frame_size fec sd sc r2
+  rw [h] at a1 a2 a3
+  exact ⟨a1.symm.trans b1, a2.symm.trans b2, a3.symm.trans b3⟩
 
-example : (@applyGain ℚ (fieldOps 0) (fun _ => (2 : ℚ)) 5 (@FrameOut.mk ℚ #[1, 3] 2 77)).pcm.size = 2 := by
-  simp [applyGain]
+/-- two runs that differ only in the gain (here 0 and 5120 = +20 dB) satisfy the hypothesis -/
+example (r : DecSkel.Run) :
+    DecSkel.gz r = DecSkel.gz (r.setSt { r.st with decode_gain := 5120 }) := rfl
 
-/-- **gain_transition_calls_gain0** (decoder skeleton `OpusModel/DecSkel.lean`, call structure of
-    `opus_decode_frame`).  The recursive concealment call made for a mode transition (`withGain0 inner`, what
-    the code does since fix 7e7e38ec) runs the inner frame on the caller's run with `decode_gain` replaced by 0
-    and nothing else changed, and hands back a run whose `decode_gain` is the caller's again (log and call
-    counter are the inner call's): the inner frame's own gain pass is skipped (`gain_pass_event`), the gain is
+/-- **gain_transition_calls_gain0** (skeleton).  The recursive concealment call for a mode transition is made
+    through `DecSkel.gain0Call` (src/opus_decoder.c:375-380 / :517-522 since 7e7e38ec): the inner frame runs on the
+    caller's run with only `decode_gain` replaced by 0, log and oracle counter are handed through, and the caller
+    gets its own gain back; with gain 0 the inner frame's gain pass does nothing (`gain_pass_event`), so the gain is
     applied once, by the outer frame, to the cross-faded signal. -/
-theorem gain_transition_calls_gain0 (inner : DecSkel.Ptr → Int → DecSkel.Run → DecSkel.Res') (p : DecSkel.Ptr)
-    (n : Int) (r : DecSkel.Run) :
-    (GainSkel.withGain0 inner p n r).1 = (inner p n (r.setSt { r.st with decode_gain := 0 })).1 ∧
-    (r.setSt { r.st with decode_gain := 0 }).st.decode_gain = 0 ∧
-    (r.setSt { r.st with decode_gain := 0 }).log = r.log ∧ (r.setSt { r.st with decode_gain := 0 }).k = r.k ∧
-    (GainSkel.withGain0 inner p n r).2.st.decode_gain = r.st.decode_gain ∧
-    (GainSkel.withGain0 inner p n r).2.log = (inner p n (r.setSt { r.st with decode_gain := 0 })).2.log :=
-  ⟨rfl, rfl, rfl, rfl, rfl, rfl⟩
+theorem gain_transition_calls_gain0 (trans : DecSkel.Ptr → Int → DecSkel.Run → DecSkel.Res') (b : DecSkel.Body)
+    (p : DecSkel.Ptr) (n : Int) (r : DecSkel.Run) :
+    DecSkel.transCall trans b r =
+      DecSkel.bindRun (DecSkel.gain0Call trans (DecSkel.transBuf r.st) (min (DecSkel.F5 r.st) b.audiosize) r)
+        (fun _ r' => (.ret (), r')) ∧
+    (DecSkel.gain0Call trans p n r).1 = (trans p n (r.setSt { r.st with decode_gain := 0 })).1 ∧
+    (DecSkel.gain0Call trans p n r).2.log = (trans p n (r.setSt { r.st with decode_gain := 0 })).2.log ∧
+    (DecSkel.gain0Call trans p n r).2.k = (trans p n (r.setSt { r.st with decode_gain := 0 })).2.k ∧
+    (DecSkel.gain0Call trans p n r).2.st.decode_gain = r.st.decode_gain :=
+  ⟨rfl, DecSkel.gain0Call_inner trans p n r⟩
+
+example : (DecSkel.gain0Call (fun _ n r => (.ret n, r)) ⟨.trans, 0, 240⟩ 120
+    ⟨{ Fs := 48000, channels := 1, dc := ⟨1, 0, 48000, 0, 0⟩, decode_gain := 256, stream_channels := 1, bandwidth := 0,
+       mode := 0, prev_mode := 0, frame_size := 120, prev_redundancy := 0, last_packet_duration := 0 }, 0, []⟩).2.st.decode_gain = 256 := rfl
 
 /-- **gain_pass_event** (skeleton).  The gain pass of a frame (`stepGain`, the last step before the state
     update) changes neither state nor call counter; with gain 0 it does nothing at all; with a non-zero gain it
@@ -189,31 +210,20 @@ theorem gain_pass_event (b : DecSkel.Body) (r : DecSkel.Run) :
     (DecSkel.stepGain b r).st = r.st ∧ (DecSkel.stepGain b r).k = r.k ∧
     (r.st.decode_gain = 0 → DecSkel.stepGain b r = r) ∧
     (r.st.decode_gain ≠ 0 →
-      (DecSkel.stepGain b r).log = .acc 11 b.pcm (b.audiosize * r.st.channels) :: r.log) :=
-  GainSkel.stepGain_event b r
+      (DecSkel.stepGain b r).log = .acc 11 b.pcm (b.audiosize * r.st.channels) :: r.log) := by
+  unfold DecSkel.stepGain
+  by_cases h : r.st.decode_gain ≠ 0
+  · rw [if_pos h]; exact ⟨rfl, rfl, fun h0 => absurd h0 h, fun _ => rfl⟩
+  · rw [if_neg h]; exact ⟨rfl, rfl, fun _ => rfl, fun h1 => absurd h1 h⟩
 
-/-- **gain_frame_condition_skeleton** (skeleton, with C01's contracts).  The frame as the code is now
-    (`frameBodyG`: `DecSkel.frameBody` with the gain-clearing transition call) satisfies everything C01 proves of
-    `frameBody`: under the oracle contracts it returns `audiosize`, keeps the decoder invariant and every access
-    in bounds, and leaves `decode_gain` — like rate, channel count, mode, … (`FrameRel`) — unchanged; the
-    gain-clearing call meets the contract of the transition call (`TransOk`) whenever the plain call does.
-    NOT proved: that the frame's return value, final state and the non-gain events are literally the same
-    function of the inputs for gain `g` and gain 0 (needs a pass over every stage of the 700-line skeleton);
-    `DecSkel.transCall` itself (C01's file) still passes the caller's gain to the inner call. -/
-theorem gain_frame_condition_skeleton {o : DecSkel.Oracle} (ho : DecSkel.OracleOk o) {st0 : DecSkel.DecState}
-    {cap0 : Int} {inner : DecSkel.Ptr → Int → DecSkel.Run → DecSkel.Res'} {b : DecSkel.Body} {r : DecSkel.Run} {u : Int}
-    (hg : DecSkel.Good st0 cap0 r) (hu : DecSkel.Units r.st u) (hb : DecSkel.BodyOk r.st u b)
-    (hroom : b.pcm.room (b.audiosize * r.st.channels)) (hcap : DecSkel.PtrCapOk st0 cap0 b.pcm)
-    (htr : b.data.isSome → DecSkel.TransOk st0 cap0 u inner) :
-    (∃ r', GainSkel.frameBodyG o inner b r = (.ret b.audiosize, r') ∧ DecSkel.Good st0 cap0 r' ∧
-      DecSkel.FrameRel r.st r'.st ∧ r'.st.prev_mode = b.mode) ∧
-    (DecSkel.TransOk st0 cap0 u inner → DecSkel.TransOk st0 cap0 u (GainSkel.withGain0 inner)) :=
-  ⟨GainSkel.frameBodyG_spec ho hg hu hb hroom hcap htr, GainSkel.withGain0_transOk⟩
+/-- **integer_output_saturates** ("integer output saturates rather than wraps", gain clause): after the gain the
+    16-bit output goes through `FLOAT2INT16`, which never leaves [-32768, 32767] whatever the scaled sample is
+    (property C13, `sat16_range`; tied by C13's `pcm-out` / `pcm-f2i16` suites). -/
+theorem integer_output_saturates (b : Nat) (hb : b < 2 ^ 32) :
+    -32768 ≤ Pcm.float2Int16 b ∧ Pcm.float2Int16 b ≤ 32767 := by
+  rw [Pcm.float2Int16_spec hb]; exact Pcm.out16Spec_range b
 
-/-- the contract of the transition call is satisfiable (a call that returns at once); the remaining
-    hypotheses are those of C01's `frameBody_spec` (non-vacuity: OpusProps/C01.lean) -/
-example (st0 : DecSkel.DecState) (cap0 u : Int) : DecSkel.TransOk st0 cap0 u (fun _ n r => (.ret n, r)) :=
-  fun r n hg _ _ => ⟨n, r, rfl, hg, DecSkel.FrameRel.refl _⟩
+example : Pcm.float2Int16 0x43410000 = 32767 ∧ Pcm.float2Int16 0xC3410000 = -32768 := by decide
 
 /-- **gain_ctl_range**.  `OPUS_SET_GAIN(v)` is accepted exactly for `-32768 ≤ v ≤ 32767` and then stores
     `v`; otherwise it answers `OPUS_BAD_ARG` and the stored gain is unchanged. -/
